@@ -430,3 +430,36 @@ def c03_tables(prog):
                 probs.append("T5: attr_name is not an identifier")
             out.append(GroundOb(oid, not probs, "; ".join(probs), witness={"class": cls.__name__, "attr": r.attr_name}))
     return out
+
+
+def c13_event_ownership(prog):
+    """C13.own: `is_ready` is assigned exactly once in the package, in Application.__init__, to a new threading.Event(),
+    (and setattr/__dict__ tricks with that name do not occur): distinct applications own distinct events, which is
+    the object invariant `self.is_ready.g_owner == self` used by the readiness contracts."""
+    import ast
+    stores = []
+    for q, fi in prog.functions.items():
+        for n in ast.walk(fi.node):
+            if isinstance(n, ast.Attribute) and n.attr == "is_ready" and isinstance(n.ctx, (ast.Store, ast.Del)):
+                stores.append((q, n.lineno))
+            if isinstance(n, ast.Constant) and n.value == "is_ready":
+                stores.append((q + " (string use)", n.lineno))
+    probs = []
+    ok_sites = [s for s in stores if s[0].endswith("Application.__init__")]
+    other = [s for s in stores if s not in ok_sites]
+    if len(ok_sites) != 1:
+        probs.append(f"expected one assignment in Application.__init__, found {ok_sites}")
+    if other:
+        probs.append(f"is_ready written elsewhere: {other}")
+    if ok_sites:
+        fi = [f for q, f in prog.functions.items() if q.endswith("Application.__init__")
+              and any(isinstance(n, ast.Attribute) and n.attr == "is_ready" for n in ast.walk(f.node))][0]
+        good = False
+        for n in ast.walk(fi.node):
+            tgt = getattr(n, "target", None) or (getattr(n, "targets", [None]) or [None])[0]
+            if isinstance(n, (ast.Assign, ast.AnnAssign)) and isinstance(tgt, ast.Attribute) and tgt.attr == "is_ready":
+                v = n.value
+                good = isinstance(v, ast.Call) and ast.unparse(v.func) == "threading.Event" and not v.args
+        if not good:
+            probs.append("the assigned value is not a new threading.Event()")
+    return [GroundOb("C13.own.is_ready-event-per-application", not probs, "; ".join(probs), backend="ast")]
